@@ -1,6 +1,7 @@
 package props
 
 import (
+	"crypto/rsa"
 	"encoding/base64"
 	"encoding/json"
 	"encoding/xml"
@@ -110,7 +111,9 @@ func c17SP(variant int) h.SPConfig {
 	sp := h.BaseSP()
 	sp.Store = []h.CertRef{{Key: "T1", Window: "wide"}, {Key: "T2", Window: "wide"}}
 	sp.SignRequests = true
-	switch variant % 8 {
+	switch variant % 9 {
+	case 8: // decryption key assembled from bare components (no precomputed CRT values), generic key store
+		sp.Enc = h.KeyCfg{Mode: "custom", Field: h.CertRef{Key: "E1", Window: "wide"}, Bare: true}
 	case 6: // IdP store lists a not-yet-valid certificate (pre-published roll-over) BEFORE the current ones
 		sp.Store = []h.CertRef{{Key: "T1", Window: "future"}, {Key: "T1", Window: "wide"}, {Key: "T2", Window: "wide"}}
 		sp.Enc = h.KeyCfg{Mode: "tls", Field: h.CertRef{Key: "E1", Window: "wide"}}
@@ -475,7 +478,22 @@ func snapshot(sp *saml2.SAMLServiceProvider) string {
 			}
 		case "Clock":
 			fmt.Fprintf(&sb, "clock:%v;", sp.Clock.Now().UnixNano())
-		case "SPKeyStore", "SPSigningKeyStore", "SignAuthnRequestsCanonicalizer":
+		case "SPKeyStore", "SPSigningKeyStore":
+			fmt.Fprintf(&sb, "%s:%v;", f.Name, !v.Field(i).IsNil())
+			// the key object belongs to the configuration too: validation has no business writing into it
+			if !v.Field(i).IsNil() {
+				switch ks := v.Field(i).Interface().(type) {
+				case *h.CustomStore:
+					if ks.Key != nil {
+						fmt.Fprintf(&sb, "%s.precomputed:%v/%d;", f.Name, ks.Key.Precomputed.Dp != nil, len(ks.Key.Precomputed.CRTValues))
+					}
+				case dsig.TLSCertKeyStore:
+					if rk, ok := ks.PrivateKey.(*rsa.PrivateKey); ok {
+						fmt.Fprintf(&sb, "%s.precomputed:%v;", f.Name, rk.Precomputed.Dp != nil)
+					}
+				}
+			}
+		case "SignAuthnRequestsCanonicalizer":
 			fmt.Fprintf(&sb, "%s:%v;", f.Name, !v.Field(i).IsNil())
 		case "RequestedAuthnContext":
 			if sp.RequestedAuthnContext != nil {
@@ -500,7 +518,7 @@ func genC17Ops(t *rapid.T, n int) []C17Op {
 // ---- Part A: sequential isolation / purity ----------------------------------------------------
 
 func genC17Seq(t *rapid.T) C17Case {
-	return C17Case{SP: c17SP(rapid.IntRange(0, 7).Draw(t, "spVariant")), Seq: true, Ops: [][]C17Op{genC17Ops(t, rapid.IntRange(1, 12).Draw(t, "nOps"))}}
+	return C17Case{SP: c17SP(rapid.IntRange(0, 8).Draw(t, "spVariant")), Seq: true, Ops: [][]C17Op{genC17Ops(t, rapid.IntRange(1, 12).Draw(t, "nOps"))}}
 }
 
 func checkC17Seq(c C17Case) h.Outcome {
@@ -543,7 +561,7 @@ func checkC17Seq(c C17Case) h.Outcome {
 // ---- Part B: concurrent use of a FRESH SP (first-use race on the lazy signing context), under -race ----
 
 func genC17Conc(t *rapid.T) C17Case {
-	c := C17Case{SP: c17SP(rapid.IntRange(0, 7).Draw(t, "spVariant"))}
+	c := C17Case{SP: c17SP(rapid.IntRange(0, 8).Draw(t, "spVariant"))}
 	g := rapid.IntRange(2, 16).Draw(t, "goroutines")
 	for i := 0; i < g; i++ {
 		c.Ops = append(c.Ops, genC17Ops(t, rapid.IntRange(1, 4).Draw(t, "nOps")))
@@ -733,7 +751,7 @@ var (
 	encFieldChoices = []struct {
 		kind string
 		c    h.CertRef
-	}{{"none", h.CertRef{}}, {"tls", h.CertRef{Key: "E1", Window: "wide"}}, {"custom", h.CertRef{Key: "E1", Window: "wide"}}, {"tls", h.CertRef{Key: "E1", Window: "past"}}, {"custom", h.CertRef{Key: "E1", Window: "narrow"}}, {"tls", h.CertRef{Key: "E2", Window: "wide"}}, {"custom", h.CertRef{Key: "E2", Window: "narrow"}}}
+	}{{"none", h.CertRef{}}, {"tls", h.CertRef{Key: "E1", Window: "wide"}}, {"custom", h.CertRef{Key: "E1", Window: "wide"}}, {"tls", h.CertRef{Key: "E1", Window: "past"}}, {"custom", h.CertRef{Key: "E1", Window: "narrow"}}, {"tls", h.CertRef{Key: "E2", Window: "wide"}}, {"custom", h.CertRef{Key: "E2", Window: "narrow"}}, {"custom-bare", h.CertRef{Key: "E1", Window: "wide"}}}
 	encSetterChoices = []*h.CertRef{nil, {Key: "E1", Window: "wide"}, {Key: "E2", Window: "wide"}, {Key: "E1", Window: "narrow"}}
 	sigFieldChoices  = []*h.CertRef{nil, {Key: "S1", Window: "wide"}, {Key: "S2", Window: "wide"}}
 	sigSetterChoices = []*h.CertRef{nil, {Key: "S2", Window: "wide"}, {Key: "S1", Window: "wide"}}
@@ -746,6 +764,8 @@ func fieldStore(kind string, c h.CertRef) dsig.X509KeyStore {
 		return h.TLSStore(c)
 	case "custom":
 		return h.NewCustomStore(c)
+	case "custom-bare":
+		return h.NewBareCustomStore(c)
 	}
 	return nil
 }
